@@ -476,11 +476,52 @@ func checkMap(name string, m any) {
 
 const dcopyRtPkg = "package rt\n\ntype Object interface {\n\tDeepCopyObject() Object\n}\n"
 
+// morphed: the package as it looked before an edit — one type that others hold by value was of another kind (a struct
+// was a defined map, a defined map or an interface a struct).  The process generates for that version first (a run
+// whose output is thrown away), then the sources become the real ones: what was learnt about a type under its old
+// declaration must not decide how the new one is copied.
+func (c *dcopyCase) morphed(pkg string) (string, bool) {
+	used := map[int]bool{}
+	for _, d := range c.Decls {
+		for _, f := range d.Fields {
+			if f[0] == 'L' {
+				var id int
+				fmt.Sscan(f[1:], &id)
+				used[id] = true
+			}
+		}
+	}
+	for i, d := range c.Decls {
+		if !used[i] || d.Generic {
+			continue
+		}
+		n := &dcopyCase{Decls: append([]DDecl{}, c.Decls...)}
+		switch d.Under {
+		case "s":
+			n.Decls[i].Under, n.Decls[i].Fields, n.Decls[i].Iface = "m", nil, false
+		case "m", "i":
+			n.Decls[i].Under, n.Decls[i].Fields = "s", []string{"p"}
+		default:
+			continue
+		}
+		return n.source(pkg), true
+	}
+	return "", false
+}
+
 func dcopyJob(cases []*dcopyCase) *genJob {
-	job := &genJob{Files: map[string]string{"rt/rt.go": dcopyRtPkg}, Gens: []string{"deepcopy"}, Runs: 2, ProbeCommon: dcopyProbeCommon + dcopyProbeMap, Probes: map[string]string{}}
+	// three runs in one process: a first one over the packages as they looked before an edit (its output is deleted),
+	// then two over the real sources — those two are what is compared and judged
+	job := &genJob{Files: map[string]string{"rt/rt.go": dcopyRtPkg}, Gens: []string{"deepcopy"}, Runs: 3, ProbeCommon: dcopyProbeCommon + dcopyProbeMap, Probes: map[string]string{}}
+	job.Edits = []map[string]string{{}}
 	for i, c := range cases {
 		pkg := fmt.Sprintf("p%d", i)
 		job.Files[pkg+"/a.go"] = c.source(pkg)
+		job.Edits[0][pkg+"/"+pipeBase+".deepcopy.go"] = "\x00delete"
+		if m, ok := c.morphed(pkg); ok {
+			job.Edits[0][pkg+"/a.go"] = job.Files[pkg+"/a.go"]
+			job.Files[pkg+"/a.go"] = m
+		}
 		job.Entry = append(job.Entry, "./"+pkg)
 		job.Probes[pkg] = c.probe(pkg)
 	}
@@ -490,12 +531,16 @@ func dcopyJob(cases []*dcopyCase) *genJob {
 func (c *dcopyCase) fill(out *genRunOut, i int) {
 	pkg := fmt.Sprintf("p%d", i)
 	r := &dcopyRes{}
+	off := 0 // the first of the two judged runs (a run over the earlier version of the sources comes before them)
+	if len(out.ExecErr) == 3 {
+		off = 1
+	}
 	for run := 0; run < 2; run++ {
-		if run >= len(out.ExecErr) {
+		if run+off >= len(out.ExecErr) {
 			r.obs[run] = "not-run"
 			continue
 		}
-		if e := out.ExecErr[run]; e != "" {
+		if e := out.ExecErr[run+off]; e != "" {
 			if strings.HasPrefix(e, "panic") {
 				r.obs[run] = "panic"
 			} else {
@@ -503,11 +548,11 @@ func (c *dcopyCase) fill(out *genRunOut, i int) {
 			}
 			continue
 		}
-		r.obs[run] = c.observe(out.Generated[run][pkg+"/"+pipeBase+".deepcopy.go"])
-		r.build[run] = out.BuildFail[run][pkg]
+		r.obs[run] = c.observe(out.Generated[run+off][pkg+"/"+pipeBase+".deepcopy.go"])
+		r.build[run] = out.BuildFail[run+off][pkg]
 	}
-	if len(out.Generated) == 2 {
-		r.same = out.Generated[0][pkg+"/"+pipeBase+".deepcopy.go"] == out.Generated[1][pkg+"/"+pipeBase+".deepcopy.go"]
+	if len(out.Generated) == 2+off {
+		r.same = out.Generated[off][pkg+"/"+pipeBase+".deepcopy.go"] == out.Generated[off+1][pkg+"/"+pipeBase+".deepcopy.go"]
 	}
 	for _, l := range strings.Split(out.ProbeOut, "\n") {
 		f := strings.Fields(l)
@@ -831,7 +876,7 @@ func init() {
 			Name: "graphs", Quick: 500, Thorough: 4000, New: func() Case { return &dcopyCase{} },
 			Gen:      func(r *Rng, i int) Case { return genDcopy(r) },
 			BatchRun: dcopyBatch, ShrinkBudget: 25, MaxShrinks: 6,
-			Rule: "packages of 2–7 declarations: structs with int, blank (`_ int`), []int, map[string]int, error, any, unnamed-interface, same-package named (struct / defined map / defined scalar / defined interface) and instantiated-generic fields, generic structs with bare type-parameter fields, defined maps and scalars, tagged and untagged dependencies, the gengo:deepcopy:interfaces tag; the real generator run twice (100 packages per Execute), the Go compiler after each run, and one probe program per batch that fills every enabled type twice — with allocated but empty containers, then with non-empty ones — at every depth, calls the generated DeepCopy, requires reflect.DeepEqual (also of DeepCopyObject where the interfaces tag gives one, whose result for a nil receiver must be a nil interface value), mutates every slice and map reachable in the copy and compares the original with an identically filled twin; compared with the model: emitted methods in order, statement form per field, compiles or not, on both runs; oracle: compiles on both runs, identical output, nil receiver gives nil, equal, nothing shared",
+			Rule: "packages of 2–7 declarations: structs with int, blank (`_ int`), []int, map[string]int, error, any, unnamed-interface, same-package named (struct / defined map / defined scalar / defined interface) and instantiated-generic fields, generic structs with bare type-parameter fields, defined maps and scalars, tagged and untagged dependencies, the gengo:deepcopy:interfaces tag; the real generator run three times in one process (100 packages per Execute) — first over an earlier version of the sources in which one type that others hold by value is of another kind (a struct was a defined map, a map or an interface a struct), whose output is deleted, then twice over the real sources —, the Go compiler after each run, and one probe program per batch that fills every enabled type twice — with allocated but empty containers, then with non-empty ones — at every depth, calls the generated DeepCopy, requires reflect.DeepEqual (also of DeepCopyObject where the interfaces tag gives one, whose result for a nil receiver must be a nil interface value), mutates every slice and map reachable in the copy and compares the original with an identically filled twin; compared with the model: emitted methods in order, statement form per field, compiles or not, on both runs; oracle: compiles on both runs, identical output, nil receiver gives nil, equal, nothing shared",
 		},
 	}})
 }
